@@ -355,7 +355,8 @@ class Store:
                     logging.warning(
                         "Unable to parse file %s for indexing, skipping.", name
                     )
-                    file_values = {}
+                    # Like the naive path: an unparseable file matches nothing
+                    continue
                 self.index.add_values(name, etag, file_values)
                 if filter.check_from_indexes(name, file_values):
                     yield (name, file, etag)
